@@ -1,5 +1,11 @@
 import Tumfl.Props.C03
 import Tumfl.Props.Lex
+import Tumfl.Props.Parse
 #print axioms Tumfl.Props.C03_ladder_is_climb
 #print axioms Tumfl.Inst.model_ladder_ok
 #print axioms Tumfl.Props.Lex_sound
+#print axioms Tumfl.Props.C10_parse_sound
+#print axioms Tumfl.Props.C03_accept_iff
+#print axioms Tumfl.Props.Accepts_unique
+#print axioms Tumfl.Props.C10_needs_noCR
+#print axioms Tumfl.Props.Parse_example_rejects
